@@ -84,7 +84,7 @@ def main():
              "kind_free_text": "TLA+ specifications checked with TLC; spec->impl replay and impl->spec trace validation through a JSON-program interpreter over the real crate"},
         ] + extra.get("engines", []),
         "checks": checks,
-        "notes": "See DESIGN.md. known-findings.txt lists the two genuine defects found, both repaired in /repo: 'fix: clamp Min timer re-queue time ...' (C08, f7545dd) and 'fix: stop forwarding a channel batch once the ChannelGuard has been dropped' (C13, 1acbc20).",
+        "notes": "See DESIGN.md. known-findings.txt lists the three genuine defects found, all repaired in /repo: 'fix: clamp Min timer re-queue time ...' (C08, f7545dd), 'fix: stop forwarding a channel batch once the ChannelGuard has been dropped' (C13, 1acbc20) and 'fix: drop what a previous Stakker's leftovers defer while Core::new discards them' (C01/C18, 873236a).",
         "not_applicable": [{"property_id": k, "reason": v} for k, v in sorted(notyet.items())],
     }
     json.dump(m, open(os.path.join(V, "MANIFEST.json"), "w"), indent=1)
